@@ -9,6 +9,16 @@ TRUST = ("Lean kernel; axioms ⊆ {propext, Classical.choice, Quot.sound} (audit
          "tools/extract_tables.py; correspondence harness (samples); named StdLaws about CPython stdlib; see DESIGN.md §3")
 
 CHECKS = {
+    'C01': dict(
+        text=("Lean theorems: leaf-level dump/load inverses (incl. the Z rewrite, proved over all strings) under named StdLaws; "
+              "model of dump + default-engine load tied to the code by type-directed differential correspondence; round-trip oracle "
+              "through dict, JSON text, list, YAML, TOML and JSON-file mixins"),
+        technique='Lean 4 proof over a hand model + differential correspondence + round-trip oracle', ref='4 C01'),
+    'C03': dict(
+        text=("Lean theorems: the isinstance scan over the registration table (regenerated from source) reaches the documented "
+              "most-specific encoder for every documented runtime type incl. subclasses; hooks are effect-free (ast summaries); "
+              "scalar results JSON-safe; dump model tied to the code by type-exact correspondence incl. aliasing / side-effect monitors"),
+        technique='Lean 4 proof over generated tables + hand model + differential correspondence', ref='4 C03'),
     'C08': dict(
         text=("Lean theorems about the model of string_conv / object_path (casing round trips for canonical snake names, "
               "tokenizer facts), model tied to the code by exhaustive small-alphabet correspondence plus end-to-end alias/path checks"),
